@@ -142,4 +142,51 @@ theorem reverseComplement_lens (b : Bag) :
 theorem rect_reverseComplement {b : Bag} (h : Rect b) : Rect (reverseComplement b).1 :=
   h.congr (reverseComplement_fields b).2.2.1 (reverseComplement_fields b).2.2.2.2.1 (reverseComplement_lens b)
 
+/-! ### `ReplaceChar` -/
+
+theorem keys_setInRow (i j : Nat) (c : Byte) (rows : List Row) : keys (setInRow i j c rows) = keys rows := by
+  simp only [keys, setInRow, List.map_map]
+  apply List.map_congr_left
+  intro r _
+  simp only [Function.comp]; split <;> rfl
+
+theorem lens_setInRow (i j : Nat) (c : Byte) (rows : List Row) :
+    (setInRow i j c rows).map (·.seq.length) = rows.map (·.seq.length) := by
+  simp only [setInRow, List.map_map]
+  apply List.map_congr_left
+  intro r _
+  simp only [Function.comp]; split <;> simp [setAt]
+
+/-- the state after `ReplaceChar` is the old one, or the old one with one residue of one row overwritten -/
+theorem replaceChar_cases {name : String} {site : Int} {c : Byte} {b : Bag} {r : Bag × Bool}
+    (h : replaceChar name site c b = some r) :
+    r.1 = b ∨ ∃ i, r.1 = { b with rows := setInRow i site.toNat c b.rows } := by
+  unfold replaceChar at h
+  split at h
+  · simp only [Option.some.injEq] at h; subst h; exact Or.inl rfl
+  · split at h
+    · simp only [Option.some.injEq] at h; subst h; exact Or.inl rfl
+    · split at h
+      · simp only [Option.some.injEq] at h; subst h; exact Or.inl rfl
+      · rename_i i _
+        split at h
+        · simp at h
+        · simp only [Option.some.injEq] at h; subst h; exact Or.inr ⟨i, rfl⟩
+
+theorem inv_replaceChar (name : String) (site : Int) (c : Byte) (b : Bag) (h : Inv b) (r : Bag × Bool)
+    (hr : replaceChar name site c b = some r) : Inv r.1 := by
+  rcases replaceChar_cases hr with e | ⟨i, e⟩ <;> rw [e]
+  · exact h
+  · exact h.transfer (by simp only []; rw [keys_setInRow]) rfl (Nat.le_refl _)
+
+theorem rect_replaceChar (name : String) (site : Int) (c : Byte) {b : Bag} (h : Rect b) (r : Bag × Bool)
+    (hr : replaceChar name site c b = some r) : Rect r.1 := by
+  rcases replaceChar_cases hr with e | ⟨i, e⟩ <;> rw [e]
+  · exact h
+  · exact h.congr rfl rfl (lens_setInRow _ _ _ _)
+
+theorem isAlign_replaceChar (name : String) (site : Int) (c : Byte) (b : Bag) (r : Bag × Bool)
+    (hr : replaceChar name site c b = some r) : r.1.isAlign = b.isAlign := by
+  rcases replaceChar_cases hr with e | ⟨i, e⟩ <;> rw [e]
+
 end Gv.Proofs.BagAbs
